@@ -373,7 +373,9 @@ func (b *leafBuilder) add(key string, offset uint64) {
 	b.fieldsLen += len(key)
 }
 
-var fieldsLimit = maxNodeSize - splitCount*7
+// fieldsLimit is the total key length up to which a leaf of splitCount keys
+// fits without computing its size: 4 bytes of header, 7 bytes per key, the keys
+var fieldsLimit = maxNodeSize - 4 - splitCount*7
 
 func (b *leafBuilder) tryAdd(key string, offset uint64) bool {
 	n := len(b.keys) + 1
